@@ -386,8 +386,8 @@ def tsm_forward(facts, res):
             for a_ in tbf.call_args(c_):
                 a0 = strip(a_)
                 dv = [v for v in walk(tb) if v.get("k") == "VarDecl" and v.get("did") == a0.get("did")] if a0.get("k") == "DeclRefExpr" else []
-                if not dv or not kids(dv[0]):
-                    raise AnalysisBroken("%s: argument `%s` of %s.rebuild(...) not understood" % (facts.loc(c_), facts.ntext(a_)[:40], mname))
+                if not dv or not kids(dv[0]) or not re.search(r"vector|Staging|array", dv[0].get("t", "")):
+                    continue          # not a staging array (a flag, a literal): nothing whose extent the rebuild could take for the particle count
                 ext = facts.ntext(kids(dv[0])[0])
                 want = re.compile(r"^(\w+\()?%s\.getNbParticles\(\)\)?$" % re.escape(mname))
                 m_ext = re.search(r"\((.*)\)$", ext)
@@ -416,7 +416,8 @@ def run(res, tier):
         n7 += _c12.toptree_fresh_pass(facts, cls7, res)
     res.rule("C13.6 results follow the particle: outside construction, whoever rewrites the original index stored at a slot also writes that slot's results in the same function")
     nctor = results_follow_particle(facts, res)
-    res.floor("C13.6", nctor, 1, "constructors writing the index block")
+    if nctor < 1:
+        res.deferred = getattr(res, "deferred", []) + [AnalysisBroken("rule C13.6 matched %d constructors writing the index block, floor confirmed by reading is 1 - the analyser no longer follows the code" % nctor)]
     fx = os.path.join(tbf.VERIF, "fixtures", "c13_relabel.cpp")
     ctl = tbf.Result("C13")
     results_follow_particle(tbf.scan_file(fx, [], [os.path.join(tbf.VERIF, "fixtures") + os.sep]), ctl, tree_cls="Tree")
